@@ -57,6 +57,23 @@ struct Forms {
     std::string cview;             // what the C string form can see
     const char *plp, *czp;
     const char8_t *pl8, *cz8;      // the same two blocks seen through the char8_t overloads
+    // A second haystack object with the same contents but stale bytes behind its terminator (only possible while the text fits the
+    // in-object array): a buffer that held needle-like text, was copy-assigned a long one, then allocate(n)'d and refilled.
+    bool has2 = false; ST::string hs2;
+    void make_stale(const SearchCase &k) {
+        if (k.hay.size() + 1 >= (size_t)ST_MAX_SSO_LENGTH) return;
+        char junk[ST_MAX_SSO_LENGTH];
+        const size_t jn = ST_MAX_SSO_LENGTH - 1;
+        for (size_t i = 0; i < jn; i++) junk[i] = k.needle.empty() ? 'a' : k.needle[i % k.needle.size()];
+        ST::char_buffer b(junk, jn);
+        const ST::char_buffer lg("a long text that does not fit the in-object array", 49);
+        b = lg;
+        b.allocate(k.hay.size());
+        if (!k.hay.empty()) memcpy(b.data(), k.hay.data(), k.hay.size());
+        hs2 = ST::string::from_validated(std::move(b));
+        has2 = hs2.size() == k.hay.size() && memcmp(hs2.c_str(), k.hay.data(), k.hay.size()) == 0;     // what it holds is C04/C05's business
+    }
+    Forms(const SearchCase &k, bool stale) : Forms(k) { if (stale) make_stale(k); }
     Forms(const SearchCase &k)
         : hx(k.hay), hs(ST::string::from_validated(hx.data(), hx.size())), ns(ST::string::from_validated(k.needle.data(), k.needle.size())),
           pl(k.needle, false), cz(k.needle, true), cview(ref::c_view(k.needle)),
@@ -109,6 +126,22 @@ std::string check_mode(const SearchCase &k, const Forms &f, bool ci) {
     WANT(hs.contains(f.czp, cs), cf0 >= 0, "contains(const char*)");
     WANT(hs.starts_with(f.czp, cs), ref::starts_with(H, C, ci), "starts_with(const char*)");
     WANT(hs.ends_with(f.czp, cs), ref::ends_with(H, C, ci), "ends_with(const char*)");
+
+    if (f.has2) {   // the same text in an object with stale bytes behind the terminator: only size() bytes may take part
+        const ST::string &h2 = f.hs2;
+        WANT(h2.find(st, f.ns, cs), mf, "find(start, ST::string) [haystack object with stale in-object bytes]");
+        WANT(h2.find_last(lim, f.ns, cs), ml, "find_last(limit, ST::string) [haystack object with stale in-object bytes]");
+        WANT(h2.find(f.czp, cs), cf0, "find(const char*) [haystack object with stale in-object bytes]");
+        WANT(h2.find_last(f.plp, n, cs), mla, "find_last(ptr, len) [haystack object with stale in-object bytes]");
+        WANT(h2.contains(f.ns, cs), mf0 >= 0, "contains(ST::string) [haystack object with stale in-object bytes]");
+        WANT(h2.starts_with(f.ns, cs), ref::starts_with(H, N, ci), "starts_with(ST::string) [haystack object with stale in-object bytes]");
+        WANT(h2.ends_with(f.ns, cs), ref::ends_with(H, N, ci), "ends_with(ST::string) [haystack object with stale in-object bytes]");
+        WANT(h2.ends_with(f.czp, cs), ref::ends_with(H, C, ci), "ends_with(const char*) [haystack object with stale in-object bytes]");
+        if (n == 1) {
+            WANT(h2.find(st, N[0], cs), mf, "find(start, char) [haystack object with stale in-object bytes]");
+            WANT(h2.find_last(lim, N[0], cs), ml, "find_last(limit, char) [haystack object with stale in-object bytes]");
+        }
+    }
 
     // char8_t forms: (pointer,length) sees the full bytes - well-formed UTF-8 or not -, the C string form the bytes before the first NUL;
     // each must give what its const char* sibling gives
@@ -651,7 +684,8 @@ int verif_case(const uint8_t *data, size_t size, Case &c) {
         if (ref::find(k.hay, k.start, k.needle, true) >= 0 && ref::find(k.hay, k.start, k.needle, false) != ref::find(k.hay, k.start, k.needle, true)) c.label("ci-answer-differs");
     }
     if (c.want_text) c.text = render(k);
-    Forms f(k);
+    Forms f(k, true);
+    if (f.has2) c.label("haystack-object-with-stale-in-object-bytes");
     std::string why = check_case(k, f);
     if (!why.empty()) return c.fail(why);
     return verif::CASE_OK;
@@ -678,7 +712,7 @@ long verif_enumerate(int shard, int nshards, int tier, verif::EnumReport &r) {
         for (size_t hi = (size_t)shard; hi < hays[al].size(); hi += (size_t)nshards) {
             for (const std::string &nd : needles[al]) {
                 SearchCase k; k.hay = hays[al][hi]; k.needle = nd;
-                Forms f(k);
+                Forms f(k, true);
                 const size_t len = k.hay.size();
                 for (size_t vi = 0; vi <= len + 2; vi++) {
                     size_t v = vi <= len + 1 ? vi : (size_t)-1;
